@@ -50,6 +50,8 @@ class Hist:
         self.canon = {}                # id -> small int, in order of first appearance
         self.legsnap = {}              # id(leg) -> (leg, snapshot)
         self.steps, self.fps, self.oracle, self.ops = [], [], [], []
+        self.changed, self.targets = [], []   # per step: tensors whose observation changed / in-place target
+        self.fresh_result = None              # index of the tensor returned by the last non-in-place step
         self.prev_obs, self.prev_fp = [], []
         self.tmp_keep = []
 
@@ -133,6 +135,10 @@ class Hist:
         fp_a = [self.fp_arr(a) for a in self.A]
         fp_g = [self.fp_leg(l) for l in self.G]
         self.fps.append(dict(arrs=fp_a, legs=fp_g))
+        now_obs = [self.obs_arr(self.A[k]) for k in range(n_before)]
+        self.changed.append([k for k in range(n_before) if now_obs[k] != self.prev_obs[k]])
+        self.targets.append(target)
+        self.fresh_result = n_before if (new_arrs and target is None) else None
         # ---- model-free oracle
         allowed = set()
         if target is not None:
@@ -148,7 +154,7 @@ class Hist:
         for k in range(n_before):
             if k in allowed:
                 continue
-            if self.obs_arr(self.A[k]) != self.prev_obs[k]:
+            if now_obs[k] != self.prev_obs[k]:
                 what = 'operand-or-bystander-changed' if target is None else 'unshared-tensor-changed-by-inplace'
                 self.oracle.append((f'c03.{name}.{what}', f'step {len(self.ops) - 1}: tensor #{k} changed'
                                     + (f' (in-place target #{target})' if target is not None else '')))
@@ -216,6 +222,7 @@ class Walk:
         self.H = Hist(cy)
         self.cy = cy
         self.case = case
+        self.follow = None
 
     # ----- helpers
     def rand_block(self, dtype):
@@ -254,7 +261,11 @@ class Walk:
         return out
 
     def pick_target(self, pred=None):
-        i = self.pick(pred)
+        f = self.follow
+        if f is not None and self.usable(self.H.A[f]) and (pred is None or pred(self.H.A[f])):
+            i = f   # in-place method on the result of the previous (non-in-place) step; its operands are alive
+        else:
+            i = self.pick(pred)
         self.inplace_target = i
         return i
 
@@ -857,6 +868,18 @@ class Walk:
         calls.append(call('fresh', a=[i], n=[dcode(r.dtype)], l=[lay, keys_of(r), []], b=[worker, r._qdata_sorted], res='a'))
         H.end('split_legs.worker' if worker else 'split_legs.fast', calls, new_arrs=[r])
 
+    def op_combine_split(self):
+        n = len(self.H.A)
+        self.op_combine()
+        if len(self.H.A) == n:
+            return
+        orig_pick = self.pick
+        self.pick = lambda pred=None: len(self.H.A) - 1   # split the tensor just combined
+        try:
+            self.op_split()
+        finally:
+            self.pick = orig_pick
+
     def op_sort_legcharge(self):
         H, rng = self.H, self.rng
         i = self.pick()
@@ -1012,15 +1035,36 @@ class Walk:
            ('sort_legcharge', 4), ('getitem', 3), ('squeeze', 2), ('extend', 2), ('concat', 3), ('ibinary', 2),
            ('isort', 2), ('leg', 6), ('new', 3)]
 
+    # in-place methods that write into existing containers of their target (block memory, `_data` list, legs/labels
+    # lists): what makes an undocumented alias between a result and its operand visible
+    FOLLOW = ['setitem_scalar', 'setitem_scalar', 'iscale', 'iadd', 'setitem_slice', 'itranspose', 'iproject', 'ibinary']
+    # results that are worth following: reshaping / slicing functions documented to return copies or views
+    FOLLOWED = ('split_legs', 'combine_legs', 'add_trivial_leg', 'take_slice', 'getitem', 'squeeze', 'transpose',
+                'sort_legcharge', 'conj', 'astype', 'scale_axis', 'concatenate', 'extend', 'gauge_total_charge',
+                'copy.deep', 'tensordot', 'trace', 'outer', 'change_charge', 'drop_one_charge')
+
     def run(self):
+        self.follow = None
         self.setup()
         names = [n for n, w in self.OPS]
         weights = [w for n, w in self.OPS]
         only = self.case.get('only')
+        stop = self.case.get('stop_after_op')
         done, tries = 0, 0
         while done < self.case['nsteps'] and tries < 40 * self.case['nsteps'] + 40:
+            if stop is not None and len(self.H.ops) > stop:
+                break
             tries += 1
             name = self.rng.choices(names, weights)[0]
+            # after a reshaping/slicing/copying function: with probability 0.6 the next step is an in-place method on
+            # its result (operands and everything else stay alive and observed)
+            self.follow = None
+            fr = self.H.fresh_result
+            if fr is not None and not only and self.H.ops[-1].startswith(self.FOLLOWED) and self.rng.random() < 0.6:
+                self.follow = fr
+                name = self.rng.choice(self.FOLLOW)
+            elif not only and self.rng.random() < 0.06:
+                name = 'combine_split'
             if only and name not in only:
                 continue
             if len(self.H.A) > 26 and name in ('new', 'copy'):
@@ -1041,6 +1085,65 @@ class Walk:
                 self.H.end('rejected.' + name, self.resorts_that_happened(), target=self.inplace_target)
                 done += 1
         return self.H
+
+
+# ------------------------------------------------------------------------------------------------------------------
+# aliasing probe
+
+
+def run_probe(walk, probe):
+    """The history has been replayed up to the step that produced tensor `new`; the real objects share MORE state with
+    the older tensors `excess` than the model documents. Apply small in-place modifications to the result and watch every
+    older tensor that is not documented to share with it (and symmetrically: modify the older tensor, watch the result).
+    Returns oracle entries (signature, detail)."""
+    H = walk.H
+    j = probe['new']
+    documented = set(probe.get('documented', []))
+    opname = H.ops[-1] if H.ops else '?'
+    out = []
+    if j >= len(H.A):
+        return out
+
+    def probes_for(x):
+        ps = []
+        if x.stored_blocks > 0:
+            for b in range(min(x.stored_blocks, 3)):
+                idx = tuple(int(l.slices[q]) for l, q in zip(x.legs, x._qdata[b]))
+                ps.append((f'x[{idx}] = x[{idx}] + 1', lambda x=x, idx=idx: x.__setitem__(idx, x[idx] + 1.0)))
+            ps.append(('x *= 3.', lambda x=x: x.__imul__(3.0)))
+            ps.append(('x += x.copy()', lambda x=x: x.__iadd__(x.copy())))
+            ps.append(('x.iscale_prefactor(0.5)', lambda x=x: x.iscale_prefactor(0.5)))
+        if x.rank >= 2:
+            ps.append(('x.iswapaxes(0, 1)', lambda x=x: x.iswapaxes(0, 1)))
+        ps.append(('x.iconj()', lambda x=x: x.iconj()))
+        return ps
+
+    def watch(mutated, name, fn, watched, what):
+        before = {k: Hist.obs_arr(H.A[k]) for k in watched}
+        try:
+            fn()
+        except Exception as e:   # a probe tenpy rejects is no evidence either way
+            return
+        for k in watched:
+            if Hist.obs_arr(H.A[k]) != before[k]:
+                out.append((f'c03.{opname}.{what}',
+                            f'step {len(H.ops) - 1}: after `r = {opname}(...)` (r = tensor #{j}), the in-place probe '
+                            f'`{name}` on tensor #{mutated} (x) changed tensor #{k}, which is not documented to share '
+                            f'anything with it'))
+                return True
+        return False
+
+    older = [k for k in range(len(H.A)) if k != j and k not in documented]
+    for name, fn in probes_for(H.A[j]):
+        if watch(j, name, fn, older, 'result-aliases-older-tensor'):
+            break
+    for i in probe.get('excess', []):
+        if i >= len(H.A) or i == j:
+            continue
+        for name, fn in probes_for(H.A[i]):
+            if watch(i, name, fn, [j], 'older-tensor-aliases-result'):
+                break
+    return out
 
 
 # ------------------------------------------------------------------------------------------------------------------
@@ -1193,8 +1296,12 @@ def main(inp, outp):
             if case.get('kind') == 'mps':
                 results.append(run_mps(case, npc, cy))
             else:
-                H = Walk(case, npc, ch, cy).run()
-                results.append(dict(steps=H.steps, fps=H.fps, oracle=[list(x) for x in H.oracle], ops=H.ops, nobj=len(H.A)))
+                w = Walk(case, npc, ch, cy)
+                H = w.run()
+                if case.get('probe'):
+                    H.oracle.extend(run_probe(w, case['probe']))
+                results.append(dict(steps=H.steps, fps=H.fps, oracle=[list(x) for x in H.oracle], ops=H.ops, nobj=len(H.A),
+                                    changed=H.changed, targets=H.targets))
         except Exception:
             results.append({'crash': traceback.format_exc()[-2500:]})
     meta = dict(have_cython=cy, tenpy_file=tenpy.__file__)
